@@ -29,6 +29,8 @@ type c13Case struct {
 	RevSel  int
 	Start   int
 	End     int
+	// Bulk adds this many extra keys (created once each) so that streamed batches fill up (batch size 300)
+	Bulk int `json:"bulk,omitempty"`
 }
 
 var c13Foreign = []string{"a/a", "a/b/", "a~", "b0", "0", "zz"}
@@ -51,6 +53,9 @@ func genC13(t *rapid.T) interface{} {
 			b.RevSel = -1
 		}
 		c.Borders = append(c.Borders, b)
+	}
+	if DrawBool(t, 6, "bulk") {
+		c.Bulk = rapid.SampledFrom([]int{290, 299, 300, 301, 320, 610}).Draw(t, "nbulk")
 	}
 	c.Shuffle = rapid.SliceOfN(rapid.IntRange(0, 1000), 6, 6).Draw(t, "shuffle")
 	c.RevSel = rapid.OneOf(rapid.Just(-1), rapid.IntRange(-2, 30)).Draw(t, "revsel")
@@ -167,6 +172,10 @@ func runC13(ci interface{}, st *CaseStats) error {
 		}
 	}
 	dry.Close()
+	bulkKeys := make([]string, c.Bulk)
+	for i := range bulkKeys {
+		bulkKeys[i] = FullKey(fmt.Sprintf("bulk/%04d", i))
+	}
 	borders := c.borderKeys(InitRev, cur0, dry.M)
 	var env *SeqEnv
 	if c.Mode == "regions" {
@@ -207,6 +216,16 @@ func runC13(ci interface{}, st *CaseStats) error {
 		if _, err := env.DoWrite(op); err != nil {
 			return fmt.Errorf("history step %d: %v", i, err)
 		}
+	}
+	if c.Bulk > 0 {
+		// many keys after the history (so that the history's revisions stay where the dry run put them)
+		env.Keys = append(env.Keys, bulkKeys...)
+		for i := range bulkKeys {
+			if _, err := env.DoWrite(WOp{Kind: "create", K: len(keys) + i}); err != nil {
+				return fmt.Errorf("bulk create %d: %v", i, err)
+			}
+		}
+		st.Label("bulk-keys")
 	}
 	if err := env.Settle(); err != nil {
 		return err
@@ -342,7 +361,7 @@ func runC13(ci interface{}, st *CaseStats) error {
 
 var specC13 = &Spec{
 	ID:          "C13",
-	Rule:        "case = history of 3..24 writes over 2..6 prefix-related keys, 0..5 partition borders (index record of a stored key, any revision of a stored key — stored or not —, well-formed internal keys of keys that are not stored), a shuffle of the partition order, a read revision and a range; mode shim = memkv with the borders injected through GetPartitions in shuffled order, mode regions = TiKV mock cluster split into regions at the same borders (real ScanRegions path). Oracle = reference model snapshot: unlimited List exact, Count, whole-range stream and the concatenation of streams over advertised partitions as multisets with multiplicity 1 and the right version; every data batch names the read revision; exactly one terminator, no error, nothing after it. Non-trivial = a border strictly inside one key's version run with versions <= R on both sides; distinct = SHA-1 of the case",
+	Rule:        "case = history of 3..24 writes over 2..6 prefix-related keys, 0..5 partition borders (index record of a stored key, any revision of a stored key — stored or not —, well-formed internal keys of keys that are not stored), a shuffle of the partition order, a read revision and a range; 6% of the cases add 290..610 further keys so that streamed batches fill up; mode shim = memkv with the borders injected through GetPartitions in shuffled order, mode regions = TiKV mock cluster split into regions at the same borders (real ScanRegions path). Oracle = reference model snapshot: unlimited List exact, Count, whole-range stream and the concatenation of streams over advertised partitions as multisets with multiplicity 1 and the right version; every data batch names the read revision; exactly one terminator, no error, nothing after it. Non-trivial = a border strictly inside one key's version run with versions <= R on both sides; distinct = SHA-1 of the case",
 	Gen:         genC13,
 	New:         func() interface{} { return &c13Case{} },
 	Run:         runC13,
